@@ -2762,6 +2762,16 @@ class _Desugar(ast.NodeTransformer):
 
     def _rewrite(self, ret):
         v = ret.value
+        if isinstance(v, ast.IfExp) and not is_replace_if_present(v) and \
+                (isinstance(v.body, ast.Constant) or
+                 isinstance(v.orelse, ast.Constant)):
+            # return A if c else B   ->   if c: return A  else: return B
+            # (an answer chosen between literals is a decision)
+            return [ast.copy_location(ast.If(
+                test=v.test,
+                body=[ast.copy_location(ast.Return(value=v.body), ret)],
+                orelse=[ast.copy_location(ast.Return(value=v.orelse), ret)]),
+                ret)]
         if isinstance(v, ast.Call) and isinstance(v.func, ast.Name) and \
                 v.func.id == 'next' and len(v.args) == 2 and \
                 not v.keywords and \
